@@ -505,6 +505,18 @@ func (c *sseClientConn) Write(ctx context.Context, msg jsonrpc.Message) error {
 	if c.isDone() {
 		return io.EOF
 	}
+	// The POST ends with the connection as well as with ctx: a server that
+	// accepts it and never answers must not keep a caller without a deadline
+	// blocked after the connection has been closed.
+	ctx, cancel := context.WithCancel(ctx)
+	defer cancel()
+	go func() {
+		select {
+		case <-c.done:
+			cancel()
+		case <-ctx.Done():
+		}
+	}()
 	req, err := http.NewRequestWithContext(ctx, "POST", c.msgEndpoint.String(), bytes.NewReader(data))
 	if err != nil {
 		return err
